@@ -20,7 +20,7 @@ func init() {
 		&Rule{ID: "R07.3", Props: []string{"C07"}, Floor: 3, Title: "open endpoints cannot reach pinset writes, the pin tracker or IPFS-driving calls", Run: r073},
 		&Rule{ID: "R07.4", Props: []string{"C07"}, Floor: 50, Title: "no endpoint is more permissive than in the reviewed policy table; new endpoints are closed, or trusted with a remote caller", Run: r074},
 		&Rule{ID: "R07.5", Props: []string{"C07"}, Floor: 6, Title: "trust predicates: raft trusts everyone; crdt trusts only under TrustAll, self or the trusted set; Trust/Distrust store/delete the same key; TrustAll only from '*'", Run: r075},
-		&Rule{ID: "R07.6", Props: []string{"C07"}, Floor: 2, Title: "the pubsub topic validator returns IsTrustedPeer(signer) and its registration is fail-closed", Run: r076},
+		&Rule{ID: "R07.6", Props: []string{"C07", "C02"}, Floor: 2, Title: "the pubsub topic validator returns IsTrustedPeer(signer) and its registration is fail-closed", Run: r076},
 	)
 }
 
